@@ -570,8 +570,10 @@ func (ka *ecdheKeyAgreement) processServerKeyExchange(config *Config, clientHell
 
 	var sigType uint8
 	var sigHash crypto.Hash
+	var wireHash uint8 // hash identifier named in the SignatureAndHashAlgorithm on the wire (logging only)
 	if ka.version >= VersionTLS12 {
 		signatureAlgorithm := SignatureScheme(sig[0])<<8 | SignatureScheme(sig[1])
+		wireHash = sig[0]
 		sig = sig[2:]
 		if len(sig) < 2 {
 			return errServerKeyExchange
@@ -610,7 +612,7 @@ func (ka *ecdheKeyAgreement) processServerKeyExchange(config *Config, clientHell
 		auth.raw = sig
 		auth.valid = ka.verifyError == nil
 		auth.sh.Signature = sigType
-		auth.sh.Hash = uint8(sigHash)
+		auth.sh.Hash = wireHash
 	default:
 		break
 	}
